@@ -59,7 +59,7 @@ fn proto_reencodings(bytes: &[u8], t: &schema::Biscuit) -> Vec<(&'static str, Ve
 pub fn run(tier: Tier) {
     let ctx = Ctx::new("C15", tier);
     // ---------------- stability along all histories
-    let depth = tier.pick(2, 4);
+    let depth = tier.pick(3, 4);
     let contents: &'static [&'static str] = &["b0", "b5"];
     let tp: &'static [&'static str] = &["t1"];
     let next = std_next_ops(contents, tp);
@@ -156,7 +156,7 @@ pub fn run(tier: Tier) {
     }
 
     // ---------------- non-malleability
-    let (corpus, cst) = build_corpus(tier.pick(1, 2), &["b0", "b5"], &["t1"], &[None]);
+    let (corpus, cst) = build_corpus(tier.pick(2, 2), &["b0", "b5"], &["t1"], &[None]);
     let legit_set: std::collections::HashSet<String> = corpus.tokens.iter().map(|c| format!("{:?}", signed_content(&c.proto).unwrap())).collect();
     let legit = |sc: &Signed| legit_set.contains(&format!("{:?}", sc));
     let variants = AtomicUsize::new(0);
